@@ -30,9 +30,12 @@
       (neither phase can fail for one scope and succeed for another: the
       first never fails, the second only by the nil dereference [EPanic]).
     - the used flag written by MarkUsed is not modelled (its cache eviction is);
-    - [extend_priv] is the regenerated fact Generated.AddrFacts
-      .extend_derives_private_when_unlocked: whether extendAddresses uses the
-      same "account is watch-only" test as nextAddresses.
+    - [facts] are regenerated from the source (Generated.AddrFacts):
+      [f_extend_priv] = whether extendAddresses uses the same "account is
+      watch-only" test as nextAddresses; [f_scope_last] = whether creating a
+      key scope with NewScopedKeyManager stores the scope's lastAccount;
+      [f_cache_guard] = whether DeriveFromKeyPathCache asks for a private
+      derivation only when the account private key is in memory.
 
     No proofs in this file. *)
 From Verif Require Import Base.Prelude Addr.Keys.
@@ -668,9 +671,9 @@ Inductive out :=
 Definition fresh_mem (d : disk) : mem :=
   mkMem true (d_pass d) (map (fun kv => (fst kv, fst (snd kv))) (d_scopes d)) [] [] [] [] [] [].
 
-(** createManagerKeyScope: coin-type key and account 0 of a scope.  Only
+(** createManagerKeyScope: coin-type key and account 0 of a scope.
     createManagerNS (waddrmgr.Create, default scopes) stores lastAccount = 0;
-    NewScopedKeyManager does not ([set_last] = false). *)
+    whether NewScopedKeyManager does is the source fact [f_scope_last]. *)
 Definition create_scope (set_last : bool) (d : disk) (s : scope) (sch : schema) : disk :=
   let coin := child (child (d_master d) (fst s) true) (snd s) true in
   let acct := child coin 0 true in
@@ -715,7 +718,10 @@ Definition new_account_row (st : state) (s : scope) (name : N) (row : N -> optio
 Definition exists_address (st : state) (s : scope) (k : akey) : bool :=
   is_some (aget sk_dec (m_addrs (st_mem st)) (s, k)) || is_some (aget sk_dec (d_addrs (st_disk st)) (s, k)).
 
-Definition step (extend_priv : bool) (st : state) (o : op) : state * out :=
+(** what the model takes from the current source text *)
+Record facts := mkFacts { f_extend_priv : bool; f_scope_last : bool; f_cache_guard : bool }.
+
+Definition step (f : facts) (st : state) (o : op) : state * out :=
   match o with
   | OOpen => (mkState (st_disk st) (fresh_mem (st_disk st)), OutOk)
 
@@ -735,7 +741,7 @@ Definition step (extend_priv : bool) (st : state) (o : op) : state * out :=
     if locked st then (st, OutErr ELocked)
     else if is_some (aget scope_eq_dec (d_scopes (st_disk st)) s) then (st, OutErr EOther)
     else (upd_mem (fun m => set_m_scopes (m_scopes m ++ [(s, sch)]) m)
-                  (upd_disk (fun d => create_scope false d s sch) st), OutOk)
+                  (upd_disk (fun d => create_scope (f_scope_last f) d s sch) st), OutOk)
 
   | ONewAccount s name =>
     if locked st then (st, OutErr ELocked)
@@ -763,7 +769,7 @@ Definition step (extend_priv : bool) (st : state) (o : op) : state * out :=
 
   | OExtend s a internal last =>
     with_scope st s (fun sch =>
-      match extend_addresses extend_priv st s sch a last internal with
+      match extend_addresses (f_extend_priv f) st s sch a last internal with
       | Ok st' _ => (st', OutOk)
       | Err st' e => (st', OutErr e)
       end)
@@ -804,7 +810,8 @@ Definition step (extend_priv : bool) (st : state) (o : op) : state * out :=
         match aget sa_dec (m_accts (st_mem st)) (s, dp_iacct p) with
         | None => (st, OutErr ENotCached)
         | Some ai =>
-          match derive_key ai (dp_branch p) (dp_index p) (negb (locked st)) with
+          match derive_key ai (dp_branch p) (dp_index p)
+                           (negb (locked st) && (if f_cache_guard f then is_some (ai_priv ai) else true)) with
           | DOk (XPriv k) =>
             (upd_mem (fun m => set_m_pk (aset sp_dec (m_pk m) (s, p) (Priv k)) m) st, OutKey (Priv k))
           | DOk (XPub _) => (st, OutErr ENotPriv)
@@ -868,11 +875,11 @@ Definition step (extend_priv : bool) (st : state) (o : op) : state * out :=
   end.
 
 (** a history: the outputs of all operations, in order *)
-Fixpoint run (extend_priv : bool) (st : state) (h : list op) : state * list out :=
+Fixpoint run (f : facts) (st : state) (h : list op) : state * list out :=
   match h with
   | [] => (st, [])
   | o :: h' =>
-    let '(st1, r) := step extend_priv st o in
-    let '(st2, rs) := run extend_priv st1 h' in
+    let '(st1, r) := step f st o in
+    let '(st2, rs) := run f st1 h' in
     (st2, r :: rs)
   end.
